@@ -156,7 +156,8 @@ def run(ck, facts, tier, only=None):
                  sample="for piece in name.split(','): push(get_calendar_by_name(piece)?)")
         tries = [e for e in hir.walk(r["body"]) if e.get("k") == "try" and any(x.get("k") == "call" and x["f"].get("def", "").endswith("get_calendar_by_name") for x in hir.walk(e))]
         brk = [e for e in hir.walk(r["body"]) if e.get("k") in ("break", "ret")]
-        ck.check(r3, "parse_cals:errors-propagate", len(tries) == 1 and not brk, "unknown names are not propagated with ? (or the loop exits early)", where, sample="lookup(..)? and no break/return in the loop")
+        coll = [e for e in hir.walk(r["body"]) if e.get("k") == "mcall" and e["m"] == "collect" and (e.get("ty") or "").startswith("std::result::Result<")]
+        ck.check(r3, "parse_cals:errors-propagate", (len(tries) == 1 or len(coll) == 1) and not brk, "unknown names are not propagated with ? (or the loop exits early)", where, sample="lookup(..)? and no break/return in the loop")
     except Unsupported as e:
         ck.fail(r3, "parse_cals", "rule could not be established (%s)" % e, where)
 
